@@ -39,6 +39,9 @@ func runC20(c *core.Ctx) core.Meta {
 	pkgs = append(pkgs, "nvidia/tracereader", "nvidia/nvidiaconfig")
 	c.Load(pkgs...)
 	c.BuildSSA()
+	// R20.13 messages are not reused between Sends (fresh.go)
+	checkMessagesFresh(c, "R20.13", []string{"nvidia/subcore", "nvidia/sm", "nvidia/gpu", "nvidia/driver"}, 6)
+	c.BuildSSA()
 	prov := core.NewProv(c)
 
 	st2 := c.Rule("R20.2", "completion propagation: every decrement of an outstanding-work counter is followed by the ==0 test that raises the finished counter of the level; a finished unit is reported upward exactly once (finished counter decremented only after a successful Send); the unit that reported is returned to the free list", 6)
